@@ -2,6 +2,7 @@
 import errno
 import gzip
 import io
+import os
 
 
 class MemStore:
@@ -36,7 +37,8 @@ class MemStore:
             fail = True
         if fail:
             self.failures.append((idx, path, self.open_count))
-            raise OSError(errno.EMFILE, 'Too many open files (injected)', path)
+            code = self.plan.get('errno', errno.EMFILE)
+            raise OSError(code, os.strerror(code) + ' (injected)', path)
 
     def _raw(self, path, mode):
         if 'w' in mode:
